@@ -201,7 +201,7 @@ def case_of(label, data, sizes, allowed, expected, faults, iterator, must_comple
 
 
 def correspondence(ctx):
-    cases = plan_cases(ctx)
+    cases = G.thin(ctx, plan_cases(ctx))
     lines = [G.fault_req(al, e, data, sizes, fl) for _, data, sizes, al, e, fl, _it, _log, _nk, _u in cases]
     replies = G.ask_par(ctx.driver, lines)
     out = []
@@ -421,6 +421,10 @@ def search(ctx, seeds, full=False):
                 s.get('faults', []), not s.get('iterator', False), s.get('must_complete', False),
                 s.get('debug_logging', False), s.get('names', 'str'))
     streams = G.c06_streams(rng, ctx.quick)
+    child = getattr(ctx, 'ambient', None) is not None       # an ambient-sweep child: about a third of the budget
+    if child:
+        head = streams[:2]
+        streams = head + [x for x in G.thin(ctx, streams[2:])]
     exps = [None] + G.ALLF
     # matching content, zero-length reads in mid-stream and reads after EOF: every byte, no exception
     for f, label, data, sizes in G.c06_matching(rng, ctx.quick):
@@ -434,7 +438,7 @@ def search(ctx, seeds, full=False):
     # every exception type x raised in front of / in the middle of eat_chunk x expected or not; faults inside the
     # complete / format_match properties of every inspector (the expected one included: its own error)
     kinds_all = ['%s:%s' % (w_, t_) for w_ in ('eat', 'post') for t_ in G.EXC_TYPES] + ['complete', 'format_match']
-    for label, data, sizes in (streams[:6] if ctx.quick and not full else streams):
+    for label, data, sizes in (streams[:2 if child else 6] if ctx.quick and not full else streams):
         nch = len(sizes)
         for kind in kinds_all:
             for name in (G.ALLF if ':' not in kind else rng.sample(G.ALLF, 3)):
@@ -444,7 +448,7 @@ def search(ctx, seeds, full=False):
         if len(fails) >= 6:
             return fails[:6]
     # every exception shape x a few types x expected none / that inspector / another x logger silent or at DEBUG
-    for label, data, sizes in (streams[:4] if ctx.quick and not full else streams):
+    for label, data, sizes in (streams[:2 if child else 4] if ctx.quick and not full else streams):
         nch = len(sizes)
         for shape in G.EXC_SHAPES:
             for tname in rng.sample(G.EXC_TYPES, 3 if ctx.quick else 8):
@@ -456,7 +460,7 @@ def search(ctx, seeds, full=False):
         if len(fails) >= 6:
             return fails[:6]
     # every single fault x expected on a few streams, both source kinds
-    for label, data, sizes in (streams[:5] if ctx.quick and not full else streams):
+    for label, data, sizes in (streams[:2 if child else 5] if ctx.quick and not full else streams):
         for name in G.ALLF:
             for k in range(len(sizes)):
                 for e in exps:
@@ -468,6 +472,8 @@ def search(ctx, seeds, full=False):
         if len(fails) >= 6:
             return fails[:6]
     n = (3000 if full else 800) if ctx.quick else (30000 if full else 8000)
+    if child:
+        n //= 3
     for _ in range(n):
         label, data, sizes = rng.choice(streams)
         nch = max(1, len(sizes))
